@@ -98,3 +98,41 @@ pub fn show_u(u: &UBig) -> String {
 pub fn show_i(i: &IBig) -> String {
     show_int(&int_of(i))
 }
+
+// ---------- exact rationals ----------
+use num_rational::BigRational;
+
+pub fn pow_q(base: u32, exp: i64) -> BigRational {
+    let b = BigInt::from(base);
+    if exp >= 0 {
+        BigRational::from_integer(num_traits::Pow::pow(&b, exp as u64))
+    } else {
+        BigRational::new(BigInt::from(1), num_traits::Pow::pow(&b, (-exp) as u64))
+    }
+}
+
+/// sig * base^exp as an exact rational
+pub fn q_of_parts(sig: &BigInt, exp: i64, base: u32) -> BigRational {
+    BigRational::from_integer(sig.clone()) * pow_q(base, exp)
+}
+
+/// exact value of a finite dashu float representation
+pub fn q_of_repr<const B: dashu_int::Word>(r: &dashu_float::Repr<B>) -> BigRational {
+    q_of_parts(&int_of(r.significand()), r.exponent() as i64, B as u32)
+}
+
+pub fn q_of_rbig(r: &dashu_ratio::RBig) -> BigRational {
+    BigRational::new(int_of(r.numerator()), BigInt::from(nat_of(r.denominator())))
+}
+
+pub fn q_of_relaxed(r: &dashu_ratio::Relaxed) -> BigRational {
+    BigRational::new(int_of(r.numerator()), BigInt::from(nat_of(r.denominator())))
+}
+
+pub fn q_of_f64(x: f64) -> BigRational {
+    BigRational::from_float(x).expect("finite")
+}
+
+pub fn show_q(q: &BigRational) -> String {
+    format!("{}/{}", show_int(q.numer()), show_int(q.denom()))
+}
